@@ -341,3 +341,34 @@ Proof.
   - apply commit_eqb_iff in E. now rewrite E.
   - unfold normal. apply merge_ref_targets_left_unchanged.
 Qed.
+
+(** * The operation-DAG checks *)
+Lemma dag_removed_hidden_spec dag heads merged :
+  dag_removed_hidden dag heads merged = true <->
+  forall h a c, In h heads -> In a (op_ancestors dag [h]) ->
+    visible (v_heads (view_at dag a)) c = true ->
+    visible (v_heads (view_at dag h)) c = false ->
+    visible (v_heads merged) c = true -> divergent_in merged c = true.
+Proof.
+  unfold dag_removed_hidden. rewrite forallb_forall. split.
+  - intros H h a c Hh Ha Hva Hvh Hm. specialize (H h Hh). rewrite forallb_forall in H.
+    specialize (H a Ha). rewrite forallb_forall in H.
+    unfold visible in Hva at 1. apply memc_In in Hva. specialize (H c Hva).
+    rewrite Hvh, Hm in H. cbn in H. exact H.
+  - intros H h Hh. apply forallb_forall. intros a Ha. apply forallb_forall. intros c Hc.
+    destruct (visible (v_heads (view_at dag h)) c) eqn:E1; [reflexivity|].
+    destruct (visible (v_heads merged) c) eqn:E2; [|reflexivity]. cbn.
+    apply (H h a c Hh Ha); auto. unfold visible. now apply memc_In.
+Qed.
+
+(** Two operations with a single closest common ancestor: [merge_ops] is [merge_views] with
+    that ancestor's view as base. *)
+Lemma merge_ops_two dag i j a ni nj na fuel :
+  nth_error dag i = Some ni -> nth_error dag j = Some nj -> nth_error dag a = Some na ->
+  cca dag [i] [j] = [a] ->
+  merge_ops (S fuel) dag [i; j]
+  = match merge_views (n_view ni) (n_view na) (n_view nj) with Some v => MOk v | None => MSkip end.
+Proof.
+  intros Hi Hj Ha Hc. cbn [merge_ops]. rewrite Hi, Hj, Hc, Ha.
+  destruct (merge_views (n_view ni) (n_view na) (n_view nj)); reflexivity.
+Qed.
